@@ -4,6 +4,7 @@
 pub mod abi;
 pub mod alloc;
 pub mod events;
+pub mod sched;
 pub mod simk;
 pub mod wakers;
 
